@@ -270,3 +270,87 @@ func historyScenario(r *vx.Rand) {
 	}
 	recoverWith(w, who, keys, r, r.Intn(8), a)
 }
+
+// gcMergeScenario: a GC pass (KVStore.GC: ScanLock + batched ResolveLock region by region) over three or four regions that
+// all hold leftover locks of dead transactions (pending, primary committed with secondaries left, pessimistic), while regions
+// MERGE (or split) just before one of its requests — between a region's ScanLock and its ResolveLock, or before a ScanLock.
+// A pass that reports success leaves no lock at or below its safe point (judged at the end of the `gc` call and again by the
+// lock audit), and the dead transactions end all-or-nothing.
+func gcMergeScenario(r *vx.Rand) {
+	pool := c05WidePool
+	var splits [][]byte
+	for _, k := range pool[1:] {
+		if len(splits) < 3 && r.Chance(45) {
+			splits = append(splits, k)
+		}
+	}
+	for len(splits) < 2 {
+		splits = [][]byte{{0x63}, {0x66}}
+	}
+	stores := 1
+	if r.Chance(15) {
+		stores = 3
+	}
+	w := hub.NewWorld(rec, hub.Options{Full: lean, Seed: r.U64(), Splits: splits, Stores: stores})
+	defer w.Close()
+	for _, k := range pool {
+		w.TrackKey(k)
+	}
+	if !seed(w, subset(r, pool, 50)) {
+		return
+	}
+	// two or three dead writers over disjoint keys: every region gets some lock
+	nw := 2 + r.Intn(2)
+	parts := make([][][]byte, nw)
+	for _, k := range pool {
+		i := r.Intn(nw)
+		parts[i] = append(parts[i], k)
+	}
+	var victims []string
+	for i, p := range parts {
+		if len(p) == 0 {
+			continue
+		}
+		kind := pick(r, []string{"pending", "primary-only", "primary-only", "pess", "complete"})
+		name := fmt.Sprintf("w%d", i+1)
+		c05Writer(w, name, p, kind, i, r)
+		victims = append(victims, name)
+		if w.Hung() {
+			return
+		}
+	}
+	w.AdvanceClock(60000)
+	rd := w.NewClient("r")
+	g := w.Gate()
+	isGCReq := func(kind, cmd string) bool { return kind == "resolve" || kind == "scanlock" }
+	isResolve := func(kind, cmd string) bool { return kind == "resolve" }
+	for i := 1 + r.Intn(2); i > 0; i-- {
+		var f *hub.Fault
+		if r.Chance(80) {
+			f = hub.MergeFault(pick(r, pool))
+			rec.Count("c02:gc-merge:merge")
+		} else {
+			f = hub.SplitFault(pick(r, pool[1:]))
+			rec.Count("c02:gc-merge:split")
+		}
+		f.Client, f.N = rd, r.Intn(3)
+		f.Match = isGCReq
+		if r.Chance(70) {
+			f.Match = isResolve
+		}
+		g.AddFault(f)
+	}
+	if !runAll(w, scenarioTimeout, func() {
+		if r.Chance(30) {
+			// the resolver has seen some of it before
+			rd.Begin(false, "2pc")
+			rd.Get(pick(r, pool))
+			rd.Rollback()
+		}
+		rd.GC(rd.CurrentTS())
+	}) {
+		return
+	}
+	g.ClearFaults()
+	w.Quiesce(scenarioTimeout)
+}
